@@ -368,36 +368,51 @@ class BayKind(Kind):
 
 
 class ConeCylKind(Kind):
-    def __init__(self, alpha):
-        self.alpha = alpha
-        self.name = 'ConeCyl/clpt_donnell_bc1/alpha%g' % alpha
+    def __init__(self, alpha, model='clpt_donnell_bc1', variant=''):
+        self.alpha, self.model, self.variant = alpha, model, variant
+        self.name = 'ConeCyl/%s/alpha%g%s' % (model, alpha, ('/' + variant) if variant else '')
         self.warmup = ('k0',)
+        self._n = None
 
     def make(self, seed):
         from ..ref import shell as rs
-        cc = rs.shell_of(dict(model='clpt_donnell_bc1', alphadeg=self.alpha, m1=2, m2=1, n2=2, s=20, nx=16, nt=16, Fc=-2.0e3, P=1.0e3))
-        cc.add_force(0.1, 30.0, 0., 0., -20., increment=True)
-        cc.add_force(0.3, -100.0, 1., 2., 5., increment=False)
+        cfg = dict(model=self.model, alphadeg=self.alpha, m1=2, m2=1, n2=2, s=20, nx=16, nt=16, Fc=2.0e3, P=0.0 if 'fsdt' in self.model else 1.0e3)
+        if self.variant == 'presc':          # prescribed end rotation and shortening: the load factor scales prescribed amplitudes
+            cfg.update(pdT=True, thetaTdeg=0.2, pdC=True, uTM=1.0e-4)
+        cc = rs.shell_of(cfg)
+        if self.variant == 'ortho':
+            cc.force_orthotropic_laminate = True
+        if 'fsdt' not in self.model:           # point forces are not implemented for the first-order shear models (NotImplementedError)
+            cc.add_force(0.1, 30.0, 0., 0., -20., increment=True)
+            cc.add_force(0.3, -100.0, 1., 2., 5., increment=False)
         cc.num_eigvalues = 2
         cc.analysis.initialInc = 0.5
         return cc
 
+    def nfree(self, seed):
+        if self._n is None:
+            self._n = (self.make(seed).calc_k0(silent=True).shape[0], self.make(seed).get_size())
+        return self._n
+
     def ops(self, seed):
-        n = 3 + 3 * 2 + 6 * 1 * 2 - 2
+        n, nfull = self.nfree(seed)
         c = _c_for(n, seed, scale=2e-4)
+        cfull = _c_for(nfull, seed + 17, scale=2e-4)
         xs = np.array([0.05, 0.2, 0.39])
         ts = np.array([0.3, -2.0, 1.1])
 
-        def pure(fn):
+        def pure(fn, vec=None):
+            v0 = c if vec is None else vec
+
             def run(cc):
-                c2 = c.copy()
+                c2 = v0.copy()
                 r = fn(cc, c2)
-                if not np.array_equal(c2, c):
+                if not np.array_equal(c2, v0):
                     raise InputMutated()
                 return r
             return run
 
-        def cores(k, fn):
+        def cores(k, fn, vec=None):
             def run(cc, c2):
                 old = (cc.ni_num_cores, cc.out_num_cores)
                 cc.ni_num_cores = cc.out_num_cores = k
@@ -405,12 +420,17 @@ class ConeCylKind(Kind):
                     return fn(cc, c2)
                 finally:
                     cc.ni_num_cores, cc.out_num_cores = old
-            return pure(run)
+            return pure(run, vec)
+
+        def lb(cc):
+            cc.lb()
+            return np.asarray(cc.eigvals)[:1]       # the small basis has a single finite buckling multiplier
         ops = {
             'k0': lambda cc: cc.calc_k0(silent=True),
             'fext': lambda cc: cc.calc_fext(silent=True),
             'fext.4': lambda cc: cc.calc_fext(inc=0.4, silent=True),
             'static': lambda cc: [np.asarray(v) for v in cc.static(silent=True)],
+            'eig:lb': lb,
             'fint@1': cores(1, lambda cc, c2: np.asarray(cc.calc_fint(c2, silent=True))),
             'fint@3': cores(3, lambda cc, c2: np.asarray(cc.calc_fint(c2, silent=True))),
             'kT@1': cores(1, lambda cc, c2: cc.calc_kT(c2, silent=True)),
@@ -418,6 +438,11 @@ class ConeCylKind(Kind):
             'uvw@1': cores(1, lambda cc, c2: [np.asarray(v) for v in cc.uvw(c2, xs=xs.copy(), ts=ts.copy())]),
             'uvw@5': cores(5, lambda cc, c2: [np.asarray(v) for v in cc.uvw(c2, xs=xs.copy(), ts=ts.copy())]),
             'strain': cores(2, lambda cc, c2: np.asarray(cc.strain(c2, xs=xs.copy(), ts=ts.copy()))),
+            # complete vectors (prescribed amplitudes included) at a load factor other than 1
+            'uvw_full.5': cores(1, lambda cc, c2: [np.asarray(v) for v in cc.uvw(c2, xs=xs.copy(), ts=ts.copy(), inc=0.5)], vec=cfull),
+            'strain_full.3': cores(1, lambda cc, c2: np.asarray(cc.strain(c2, xs=xs.copy(), ts=ts.copy(), inc=0.3)), vec=cfull),
+            'fint.5': cores(1, lambda cc, c2: np.asarray(cc.calc_fint(c2, inc=0.5, silent=True))),
+            'fullc.5': pure(lambda cc, c2: np.asarray(cc.calc_full_c(c2, inc=0.5)), vec=cfull),
         }
         return ops
 
@@ -465,24 +490,29 @@ def _conecyl_redefs():
         'force': lambda c: c.add_force(0.2, 10., 0., 0., 9.),
         'edge': lambda c: setattr(c, 'kphixBot', 4.0e3),
         'n2': lambda c: setattr(c, 'n2', 3),
+        'ortho_toggle': lambda c: setattr(c, 'force_orthotropic_laminate', not c.force_orthotropic_laminate),
     }
 
 
-REDEFS = {'Panel/plate': _panel_redefs, 'Panel/cpanel': _panel_redefs, 'ConeCyl/clpt_donnell_bc1/alpha0': _conecyl_redefs}
+REDEFS = {'Panel/plate': _panel_redefs, 'Panel/cpanel': _panel_redefs, 'ConeCyl/clpt_donnell_bc1/alpha0': _conecyl_redefs,
+          'ConeCyl/clpt_donnell_bc1/alpha0/ortho': lambda: {'ortho_toggle': _conecyl_redefs()['ortho_toggle']}}
 REDEF_OPS = {'Panel/plate': ['k0', 'kG0', 'kM', 'kA', 'fext', 'static', 'kT', 'fint', 'uvw@2', 'stress'],
              'Panel/cpanel': ['k0', 'kM', 'kT', 'static'],
-             'ConeCyl/clpt_donnell_bc1/alpha0': ['k0', 'fext', 'static', 'fint@1', 'kT@1']}
+             'ConeCyl/clpt_donnell_bc1/alpha0': ['k0', 'fext', 'static', 'fint@1', 'kT@1', 'eig:lb'],
+             'ConeCyl/clpt_donnell_bc1/alpha0/ortho': ['k0', 'static', 'eig:lb', 'fint@1']}
 SIG_STALE_CC = 'C20:ConeCyl-cached-linear-matrices-survive-a-definition-change'
 SIG_STALE_PLY = 'C20:Panel-derived-ply-lists-survive-a-change-of-plyt-laminaprop-stack'
 
 
 KINDS = {k.name: k for k in [PanelKind('plate'), PanelKind('cpanel'), AssemblyKind(), BayKind('b1d'), BayKind('b1d_base'),
-                             BayKind('b2d'), BayKind('t2d'), ConeCylKind(0.0), ConeCylKind(20.0)]}
+                             BayKind('b2d'), BayKind('t2d'), ConeCylKind(0.0), ConeCylKind(20.0),
+                             ConeCylKind(0.0, 'fsdt_donnell_bc1'), ConeCylKind(20.0, 'clpt_donnell_bc1', 'presc'),
+                             ConeCylKind(0.0, 'clpt_donnell_bc1', 'ortho')]}
 
 
 # ----------------------------------------------------------------------------------------------- exploration
 # quick tier: every call is tried first, but only these state-sensitive calls are tried as the following call
-PROBE = {'k0', 'kM', 'kA', 'kT', 'fint', 'fext', 'static', 'uvw', 'stress', 'uvw_skin_grid', 'uvw_skin', 'uvw_flange', 'k0_conn', 'kG0c', 'cA',
+PROBE = {'eig:lb', 'fint.5', 'uvw_full.5', 'k0', 'kM', 'kA', 'kT', 'fint', 'fext', 'static', 'uvw', 'stress', 'uvw_skin_grid', 'uvw_skin', 'uvw_flange', 'k0_conn', 'kG0c', 'cA',
          'uvw_grid', 'eig:freq_dense'}
 
 
